@@ -10,6 +10,7 @@ from prop import SchedProp  # noqa: E402
 
 class C26(SchedProp):
     id = 'C26'
+    also = ['C26S']
     props_modules = ['CylcModel.Props.C26']
     theorems = [
         'CylcModel.C26.pool_no_duplicates',
